@@ -34,6 +34,9 @@ class Contract:
         # region verification: only the statements around one loop of a function that is otherwise outside
         # the subset: dict(loop=<static ordinal>, lead=<statements before it in the same block>)
         self.region = g("region", None)
+        # self-composition (relational) mode: {label: {field-of-self: bool}} -- the body is run under the
+        # restricted setting, and, where that run returns, once more under the unrestricted one
+        self.selfcomp = g("selfcomp", None)
         self.case_props = g("case_props", {})        # case name -> properties it serves (default: all of the contract's)
         self.concrete_dicts = g("concrete_dicts", False)   # shape-bounded mode: `{}` stays an enumerated dict
         self.comprehensions = g("comprehensions", {})   # ordinal (source order) -> "lambda x: <element spec>"
